@@ -701,7 +701,7 @@ def TrampCall (σ : Store) (tenv : Nat) (f : Expr) (targs : List Expr) (env : Na
   (∃ fv σ₁, Evals σ tenv f (.ok fv) σ₁ ∧
     ((∃ er, EvalsArgs σ₁ tenv targs (.error er) σ' ∧ r = .error er) ∨
      (∃ vs σ₂, EvalsArgs σ₁ tenv targs (.ok vs) σ₂ ∧
-        ((procArity fv = none ∧ r = .error (.nonProcedure, none) ∧ σ' = σ₂) ∨
+        ((procArity fv = none ∧ r = .error (.nonProcedure, f.loc) ∧ σ' = σ₂) ∨
          ((procArity fv).isSome ∧ Applies σ₂ fv vs env r σ')))))
 
 /-- the rest of an activation whose body has reached the tail expression `e` of frame `ρ`: the
@@ -2230,6 +2230,60 @@ theorem mapM_tick {σ : Store} {xs : List Value} {r σ'} (h : MapM (AppOf (.buil
         List.singleton_append]
     · rw [e₂.vecs, hvecs]; exact e₁.vecs
 
+/-! ## 14. pure procedure arguments -/
+
+section pureArg
+variable {b : Nat}
+
+/-- a procedure that is pure on `dom` (it yields `g args` and only appends frames, wherever the
+library frame is) is a good procedure argument, with the library frame itself as the invariant -/
+theorem ProcArg.of_papp {N : Nat} {f : Value} {dom : List Value → Prop} {g : List Value → Except SErr Value}
+    (hp : (procArity f).isSome) (h : ∀ args, dom args → PApp b f args (g args)) :
+    ProcArg b N (fun σ => LibFrame σ b) f dom where
+  proc := hp
+  stable _ _ hK he := hK.ext he.framesExt
+  app σ args hK _ hd := by
+    have h0 := h args hd σ 0 hK
+    obtain ⟨σ', h', e⟩ := h0
+    refine ⟨g args, σ', fun env => Applies.env_irrel h' env, Store.Keeps.of_framesExt e.framesExt b N,
+      fun _ _ => hK.ext e.framesExt⟩
+
+/-- with a pure procedure argument the traversal of `map` computes `List.mapM` and only appends
+frames -/
+theorem mapM_of_papp {f : Value} {g : Value → Except SErr Value} (h : ∀ x, PApp b f [x] (g x))
+    {σ : Store} {xs : List Value} {r σ'} (htr : MapM (AppOf f) Store.DExt σ xs r σ') (hl : LibFrame σ b) :
+    r = xs.mapM g ∧ σ.DExt σ' := by
+  induction htr with
+  | nil e => exact ⟨rfl, e⟩
+  | @cons_err σ σ₁ σ₂ σ' x xs er e₁ happ e₂ =>
+    obtain ⟨σ₂', h', e'⟩ := h x σ₁ 0 (hl.ext e₁.framesExt)
+    obtain ⟨hr, hσ⟩ := Applies.unique (happ 0) h'
+    subst hσ
+    refine ⟨?_, (e₁.trans e'.dExt).trans e₂⟩
+    simp only [List.mapM_cons, ← hr, bind, Except.bind]
+  | @cons σ σ₁ σ₂ σ₃ σ' x xs v r e₁ happ _ e₂ ih =>
+    obtain ⟨σ₂', h', e'⟩ := h x σ₁ 0 (hl.ext e₁.framesExt)
+    obtain ⟨hr, hσ⟩ := Applies.unique (happ 0) h'
+    subst hσ
+    obtain ⟨rfl, e₃⟩ := ih ((hl.ext e₁.framesExt).ext e'.framesExt)
+    refine ⟨?_, ((e₁.trans e'.dExt).trans e₃).trans e₂⟩
+    simp only [List.mapM_cons, ← hr, bind, Except.bind]
+    cases List.mapM g xs <;> rfl
+
+/-- `cons` is a procedure argument of the folds in every store -/
+theorem procArg_cons (b N : Nat) (dom : List Value → Prop) (hd : ∀ args, dom args → args.length = 2) :
+    ProcArg b N (fun _ => True) (.builtin .cons) dom :=
+  ProcArg.builtin (by decide) (fun args h => by rw [hd args h]; rfl)
+    (fun σ args h => by
+      match args, hd args h with
+      | [a, d], _ => simp [Prim.applyPure, Prim.ok])
+    (fun σ args => by
+      match args with
+      | [] | [_] => rfl
+      | _ :: _ :: _ => rfl)
+
+end pureArg
+
 /-! ## 8. a store with the library frame -/
 
 /-- the bindings of an instance of `(scheme base)` in frame `b`: the natives imported from
@@ -2267,5 +2321,210 @@ theorem LibFrame.of_defs {σ : Store} {b : Nat} (h : σ.frames[b]? = some { pare
 def libStore : Store := { frames := #[{ parent := none, defs := libDefs 0 }] }
 
 theorem libFrame_libStore : LibFrame libStore 0 := LibFrame.of_defs rfl
+
+/-! ## 13. `evalLibraryDef` on the generated declarations builds a library frame
+
+(3) of the set-up, stated SYMBOLICALLY for `Interp.evalLibraryDef` (the function `getLibrary` runs
+on the `Factory.ast` that `factoryOfText` makes of `base.sld`): for EVERY interpreter state in
+which `(ruschm base)` is the registered native library and is not yet instantiated or being
+loaded, instantiating `libDecls` succeeds and the fresh root frame satisfies `LibFrame`. The
+closed computation `Interp.withStdlib` (which also lexes and parses the text in the kernel) is not
+evaluated. -/
+
+section instantiate
+open Interp
+
+/-- the lambdas of the definitions of `base.sld` -/
+def expectedLams : List (String × Lambda) :=
+  expectedDefs.filterMap fun p => match p.2 with | .lambda lam _ => some (p.1, lam) | _ => none
+
+theorem expectedDefs_lams : expectedDefs = expectedLams.map fun p => (p.1, .lambda p.2 none) := by rfl
+
+theorem libDefs_eq (b : Nat) : libDefs b = nativeBase ++ expectedLams.map fun p => (p.1, .closure p.2 b) := by
+  unfold libDefs
+  rw [baseDefs_eq]
+  congr 1
+  conv => lhs; rw [expectedDefs_lams]
+  rw [List.map_map]
+  apply List.map_congr_left
+  intro p hp
+  obtain ⟨i, hi, h⟩ := List.getElem_of_mem hp
+  have : expectedDefs[i]? = some (p.1, .lambda p.2 none) := by
+    rw [expectedDefs_lams, List.getElem?_map, List.getElem?_eq_getElem hi, h]; rfl
+  simp only [Function.comp]
+  rw [libProc_of_index this]
+
+/-- a run of `define`s in frame `ρ`: the frame gets the bindings, nothing else changes -/
+theorem foldl_define_store (ρ : Nat) : ∀ (l : List (String × Value)) (σ : Store),
+    let σ' := l.foldl (fun σ p => σ.define ρ p.1 p.2) σ
+    σ'.vecs = σ.vecs ∧ σ'.out = σ.out ∧ σ'.ticks = σ.ticks ∧ σ'.depth = σ.depth ∧
+    σ'.maxDepth = σ.maxDepth ∧ σ'.frames.size = σ.frames.size ∧
+    (∀ i, i ≠ ρ → σ'.frames[i]? = σ.frames[i]?) ∧
+    σ'.frames[ρ]? = (σ.frames[ρ]?).map fun f =>
+      { f with defs := l.foldl (fun d p => Store.defsInsert d p.1 p.2) f.defs }
+  | [], σ => by simp
+  | p :: l, σ => by
+    have ih := foldl_define_store ρ l (σ.define ρ p.1 p.2)
+    simp only [define_vecs, define_out, define_ticks, define_depth, define_maxDepth, define_frames_size] at ih
+    obtain ⟨h1, h2, h3, h4, h5, h6, h7, h8⟩ := ih
+    refine ⟨h1, h2, h3, h4, h5, h6, fun i hi => ?_, ?_⟩
+    · rw [List.foldl_cons, h7 i hi, define_other _ _ _ _ _ hi]
+    · rw [List.foldl_cons, h8, define_frames_getElem?]
+      simp only [if_true, List.foldl_cons]
+      cases σ.frames[ρ]? <;> simp
+
+theorem defsInsert_fresh : ∀ (d : List (String × Value)) (k : String) (v : Value), k ∉ d.map (·.1) →
+    Store.defsInsert d k v = d ++ [(k, v)]
+  | [], k, v, _ => rfl
+  | (k', v') :: d, k, v, h => by
+    simp only [List.map_cons, List.mem_cons, not_or] at h
+    simp only [Store.defsInsert, Ne.symm h.1, if_false, List.cons_append]
+    rw [defsInsert_fresh d k v h.2]
+
+/-- inserting bindings with fresh, distinct names appends them in order -/
+theorem foldl_defsInsert_fresh : ∀ (l acc : List (String × Value)), ((acc ++ l).map (·.1)).Nodup →
+    l.foldl (fun d p => Store.defsInsert d p.1 p.2) acc = acc ++ l
+  | [], acc, _ => by simp
+  | p :: l, acc, h => by
+    have hp : p.1 ∉ acc.map (·.1) := by
+      simp only [List.map_append, List.map_cons] at h
+      have := (List.nodup_append.mp h).2.2
+      intro hm
+      exact this _ hm _ (List.mem_cons_self) rfl
+    rw [List.foldl_cons, defsInsert_fresh acc p.1 p.2 hp]
+    have : acc ++ [(p.1, p.2)] ++ l = acc ++ p :: l := by simp
+    rw [foldl_defsInsert_fresh l (acc ++ [(p.1, p.2)]) (by rw [this]; exact h), this]
+
+/-- the statements of the `begin` body: each `define` of a `lambda` binds its closure -/
+theorem evalStatements_lams (ρ : Nat) : ∀ (lams : List (String × Lambda)) (fuel : Nat) (st : State),
+    lams.length + 2 ≤ fuel →
+    evalStatements fuel st ρ (lams.map fun p => .definition (.mk p.1 (.lambda p.2 none) none)) =
+      (.ok (), { st with
+        store := List.foldl (fun σ p => σ.define ρ p.1 p.2) st.store (lams.map fun p => (p.1, Value.closure p.2 ρ)) })
+  | [], fuel, st, h => by
+    obtain ⟨k, rfl⟩ : ∃ k, fuel = k + 1 := ⟨fuel - 1, by omega⟩
+    simp [evalStatements]
+  | p :: lams, fuel, st, h => by
+    obtain ⟨k, rfl⟩ : ∃ k, fuel = k + 2 := ⟨fuel - 2, by simp at h; omega⟩
+    simp only [List.map_cons, evalStatements, evalExprOrDef, evalExpr, List.foldl_cons]
+    rw [evalStatements_lams ρ lams (k + 1) _ (by simp at h; omega)]
+
+theorem nativeBase_assoc : nativeBase.foldl (fun a p => assocInsert a p.1 p.2) [] = nativeBase := by
+  rfl
+
+/-- `(import (ruschm base))` from the registered native factory: the natives are defined in `ρ` -/
+theorem evalImport_ruschmBase (st : State) (ρ : Nat) (fuel : Nat) (hfuel : 4 ≤ fuel)
+    (h₁ : libLookup st.instances libRuschmBase = none)
+    (h₂ : libLookup st.factories libRuschmBase = some (.native nativeBase))
+    (h₃ : st.inProgress.contains libRuschmBase = false) :
+    (evalImport fuel st [.direct libRuschmBase none] ρ).1 = .ok () ∧
+      (evalImport fuel st [.direct libRuschmBase none] ρ).2.store =
+        nativeBase.foldl (fun σ p => σ.define ρ p.1 p.2) st.store := by
+  obtain ⟨k, rfl⟩ : ∃ k, fuel = k + 4 := ⟨fuel - 4, by omega⟩
+  simp only [evalImport, evalImportSets, evalImportSet, h₃, getLibrary, h₁, h₂, Bool.false_eq_true, if_false,
+    nativeBase_assoc, and_self]
+
+theorem foldlM_error_elim {α β} {F : β → α → Except SErr β} : ∀ {xs : List α} {acc : β} {e : SErr},
+    xs.foldlM F acc = .error e → ∃ acc', ∃ x ∈ xs, ∃ e', F acc' x = .error e'
+  | [], acc, e, h => by simp [pure, Except.pure] at h
+  | x :: xs, acc, e, h => by
+    simp only [List.foldlM_cons, bind, Except.bind] at h
+    cases hF : F acc x with
+    | error e' => exact ⟨acc, x, List.mem_cons_self, e', hF⟩
+    | ok acc₁ =>
+      rw [hF] at h
+      obtain ⟨acc', y, hy, e', he⟩ := foldlM_error_elim h
+      exact ⟨acc', y, List.mem_cons_of_mem _ hy, e', he⟩
+
+theorem exportNames_bound : ∀ n ∈ exportNames,
+    n ∈ Builtin.baseList.map Builtin.name ∨ n ∈ expectedDefs.map (·.1) := by
+  have h : (exportNames.all fun n =>
+      (Builtin.baseList.map Builtin.name).contains n || (expectedDefs.map (·.1)).contains n) = true := by rfl
+  intro n hn
+  have := List.all_eq_true.mp h n hn
+  simpa using this
+
+/-- the three declarations of `base.sld` run in frame `ρ`: the natives, then the closures -/
+theorem evalLibDecls_base (st : State) (ρ : Nat) (fuel : Nat) (hfuel : 39 ≤ fuel)
+    (h₁ : libLookup st.instances libRuschmBase = none)
+    (h₂ : libLookup st.factories libRuschmBase = some (.native nativeBase))
+    (h₃ : st.inProgress.contains libRuschmBase = false) :
+    ∃ st', evalLibDecls fuel st ρ expectedDecls [] = (.ok (exportNames.map (ExportSpec.direct · none)), st') ∧
+      st'.store = List.foldl (fun σ p => σ.define ρ p.1 p.2) st.store
+        (nativeBase ++ expectedLams.map fun p => (p.1, Value.closure p.2 ρ)) := by
+  obtain ⟨k, rfl⟩ : ∃ k, fuel = k + 39 := ⟨fuel - 39, by omega⟩
+  obtain ⟨hi₁, hs₁⟩ := evalImport_ruschmBase st ρ (k + 38) (by omega) h₁ h₂ h₃
+  simp only [expectedDecls, evalLibDecls]
+  generalize evalImport (k + 38) st [.direct libRuschmBase none] ρ = res at hi₁ hs₁
+  obtain ⟨r₁, st₁⟩ := res
+  simp only at hi₁ hs₁
+  subst hi₁
+  simp only [List.nil_append]
+  rw [expectedDefs_lams, List.map_map]
+  have hst := evalStatements_lams ρ expectedLams (k + 36) st₁ (by
+    have : expectedLams.length = 30 := by rfl
+    omega)
+  simp only [Function.comp_def] at hst ⊢
+  rw [hst]
+  exact ⟨_, rfl, by rw [hs₁, List.foldl_append]⟩
+
+/-- (3) instantiating the generated declarations of `(scheme base)` builds a library frame: the
+fresh root frame `st.store.frames.size` holds exactly `libDefs`, every export is found in it,
+and nothing else in the store changes -/
+theorem libFrame_of_evalLibraryDef (st : State) (fuel : Nat) (hfuel : 40 ≤ fuel)
+    (h₁ : libLookup st.instances libRuschmBase = none)
+    (h₂ : libLookup st.factories libRuschmBase = some (.native nativeBase))
+    (h₃ : st.inProgress.contains libRuschmBase = false) :
+    ∃ exports st', evalLibraryDef fuel st libDecls = (.ok exports, st') ∧
+      LibFrame st'.store st.store.frames.size ∧
+      st'.store.frames[st.store.frames.size]? = some { parent := none, defs := libDefs st.store.frames.size } ∧
+      st.store.Ext st'.store := by
+  obtain ⟨k, rfl⟩ : ∃ k, fuel = k + 40 := ⟨fuel - 40, by omega⟩
+  obtain ⟨st', hd, hs'⟩ := evalLibDecls_base { st with store := (st.store.newFrame none).2 }
+    (st.store.newFrame none).1 (k + 39) (by omega) h₁ h₂ h₃
+  rw [libDecls_eq]
+  simp only [evalLibraryDef]
+  rw [hd]
+  simp only
+  -- the store after the natives and the definitions
+  have hfold := foldl_define_store st.store.frames.size
+    (nativeBase ++ expectedLams.map fun p => (p.1, Value.closure p.2 st.store.frames.size)) (st.store.newFrame none).2
+  simp only [newFrame_frames, newFrame_vecs, newFrame_out, newFrame_ticks, newFrame_depth, newFrame_maxDepth,
+    Array.size_push, Array.getElem?_push_size, Option.map_some] at hfold
+  obtain ⟨f1, f2, f3, f4, f5, f6, f7, f8⟩ := hfold
+  have hnd := libDefs_keys_nodup st.store.frames.size
+  rw [libDefs_eq] at hnd
+  have hdefs := foldl_defsInsert_fresh
+    (nativeBase ++ expectedLams.map fun p => (p.1, Value.closure p.2 st.store.frames.size)) [] (by simpa using hnd)
+  rw [List.nil_append] at hdefs
+  rw [hdefs] at f8
+  have hs'' : st'.store = List.foldl (fun σ p => σ.define st.store.frames.size p.1 p.2) (st.store.newFrame none).2
+      (nativeBase ++ expectedLams.map fun p => (p.1, Value.closure p.2 st.store.frames.size)) := hs'
+  have hframe : st'.store.frames[st.store.frames.size]? =
+      some { parent := none, defs := libDefs st.store.frames.size } := by
+    rw [hs'', libDefs_eq]; exact f8
+  have hlib := LibFrame.of_defs hframe
+  have hbound : ∀ n ∈ exportNames, ∃ v, st'.store.lookup st.store.frames.size n = some v := fun n hn => by
+    rcases exportNames_bound n hn with hb | hd
+    · obtain ⟨bi, hbi, rfl⟩ := List.mem_map.mp hb
+      exact ⟨_, hlib.lookup_builtin bi hbi⟩
+    · obtain ⟨p, hp, rfl⟩ := List.mem_map.mp hd
+      obtain ⟨i, hi, h⟩ := List.getElem_of_mem hp
+      exact ⟨_, hlib.lookup_proc (i := i) (e := p.2) (by rw [List.getElem?_eq_getElem hi, h])⟩
+  have hext : st.store.Ext st'.store := by
+    rw [hs'']
+    exact ⟨by omega, fun i hi => by rw [f7 i (by omega), Array.getElem?_push_lt hi]; simp [hi],
+      f1, f2, f3, f4, by omega⟩
+  generalize hres : List.foldlM (m := Except SErr) (s := List (String × Value)) _ _ _ = res
+  cases res with
+  | ok l => exact ⟨l, st', rfl, hlib, hframe, hext⟩
+  | error e =>
+    exfalso
+    obtain ⟨acc', x, hx, e', he⟩ := foldlM_error_elim hres
+    obtain ⟨n, hn, rfl⟩ := List.mem_map.mp hx
+    obtain ⟨v, hv⟩ := hbound n hn
+    simp [Store.newFrame, hv] at he
+
+end instantiate
 
 end Ruschm.ListLib
